@@ -175,17 +175,25 @@ func (r *coreRun) reporterCall(kind, name string, tags map[string]string, i int6
 		r.log(M{"e": "internal", "k": kind, "name": name, "t": t}) // the library's own cardinality gauges: not user metrics
 		return
 	}
+	// own: the call is made by one of the library's own passes (report loop, Close), not by a pass that a scenario
+	// thread drives through the test entry point (what "after Close has returned" speaks about)
+	own := true
+	if r.s != nil {
+		r.mu.Lock()
+		own = t == "loop" || r.curOp[t] == "rootclose"
+		r.mu.Unlock()
+	}
 	switch kind {
 	case "counter":
-		r.log(M{"e": "dlv", "k": "counter", "t": t, "id": renderID(name, tags), "v": r.units(i)})
+		r.log(M{"e": "dlv", "k": "counter", "t": t, "id": renderID(name, tags), "v": r.units(i), "own": own})
 	case "gauge":
-		r.log(M{"e": "dlv", "k": "gauge", "t": t, "id": renderID(name, tags), "v": r.gaugeTok(f)})
+		r.log(M{"e": "dlv", "k": "gauge", "t": t, "id": renderID(name, tags), "v": r.gaugeTok(f), "own": own})
 	case "timer":
 		r.log(M{"e": "dlv", "k": "timer", "t": t, "id": renderID(name, tags), "v": timerTok(d)})
 	case "hist":
-		r.log(M{"e": "dlv", "k": "counter", "t": t, "id": renderID(name, tags) + fmt.Sprintf("[%v]", f), "v": i})
+		r.log(M{"e": "dlv", "k": "counter", "t": t, "id": renderID(name, tags) + fmt.Sprintf("[%v]", f), "v": i, "own": own})
 	case "flush":
-		r.log(M{"e": "flush", "t": t})
+		r.log(M{"e": "flush", "t": t, "own": own})
 	case "rclose":
 		r.rcloseBy = t
 		r.rcloseN++
@@ -447,9 +455,9 @@ func (r *coreRun) runThread(ts ThreadSpec) {
 				g = h.s.Gauge(op.M)
 			}
 			id := renderID(qualify(h.prefix, r.nm(op.M)), h.tags)
-			r.log(M{"e": "updcall", "t": ts.Name, "id": id, "v": int(op.V)})
+			r.log(M{"e": "updcall", "t": ts.Name, "id": id, "v": int(op.V), "inert": h.inert})
 			g.Update(math.Float64frombits(r.gtab[op.V]))
-			r.log(M{"e": "updret", "t": ts.Name, "id": id})
+			r.log(M{"e": "updret", "t": ts.Name, "id": id, "inert": h.inert})
 		case "rec":
 			tm, ok := held[hk(op, "timer")].(tally.Timer)
 			if !ok {
